@@ -383,6 +383,9 @@ func (p *Prog) computeMayWrite() {
 				if cal == nil || cal == fn {
 					continue
 				}
+				if _, isGo := e.Site.(*ssa.Go); isGo {
+					continue // effects of a started goroutine are not effects of the call
+				}
 				for k := range p.mayW[cal] {
 					if !mine[k] {
 						mine[k] = true
